@@ -94,7 +94,7 @@ Load ==
   /\ nat' = XToNative(port)
   /\ orig' = IF orig = <<>> THEN nat' ELSE orig
   /\ pc' = "mem"
-  /\ trips' = trips + 1
+  /\ trips' = IF orig = <<>> THEN trips ELSE trips + 1     \* the load that discovers a foreign constant is not a trip
   /\ UNCHANGED <<port, parts>>
 
 CanLoad(path) == pc = "file" /\ ToPath(port) = path
